@@ -37,6 +37,17 @@ type State struct {
 	iters  map[ssa.Value]string // map-range iterators: set of visited keys (Array K Bool)
 	path  []string
 	dead  bool
+	// calls: per callee (short name), the contracted calls made on this path so far, in order (for callarg/callres/ncalls
+	// in postconditions: "what was handed to the parser is the field's text"); callsLost: a loop was cut since the entry,
+	// the log is no longer the whole story
+	calls     map[string][]callRec
+	callsLost bool
+	recent    map[string][]callRec // the calls since the last loop cut (negative ordinals count from the end of these)
+}
+
+type callRec struct {
+	args []Val
+	res  Val
 }
 
 func (f *Frame) clone(memo map[*Frame]*Frame) *Frame {
@@ -82,6 +93,19 @@ func (s *State) clone() *State {
 		}
 	}
 	t.formal = s.formal
+	t.callsLost = s.callsLost
+	if len(s.calls) > 0 {
+		t.calls = make(map[string][]callRec, len(s.calls))
+		for k, v := range s.calls {
+			t.calls[k] = append([]callRec(nil), v...)
+		}
+	}
+	if len(s.recent) > 0 {
+		t.recent = make(map[string][]callRec, len(s.recent))
+		for k, v := range s.recent {
+			t.recent[k] = append([]callRec(nil), v...)
+		}
+	}
 	t.snaps = make(map[string]*State, len(s.snaps))
 	for k, v := range s.snaps {
 		t.snaps[k] = v
